@@ -66,15 +66,23 @@ class SimAsyncResult:
             raise ValueError("{0!r} not ready".format(self))
         return bool(self._task.ok)
 
+    # Timed waits.  There is no clock in the simulation, so a timeout is modelled by its intent: a short one
+    # (< POLL_TIMEOUT seconds) is a poll - the scheduler fires 0..2 events and the wait may time out, a scheduling
+    # decision; a long one is a safety net - it behaves like a blocking wait and fires only when nothing can make
+    # progress any more (where a blocking wait would be a deadlock).
+    POLL_TIMEOUT = 1.0
+
     def wait(self, timeout=None):
-        if timeout is not None:
-            self._pool._tick("wait_timeout")
+        if timeout is not None and timeout < self.POLL_TIMEOUT:
+            if not self._task.delivered:
+                self._pool._tick("wait_timeout")
             return
         self._pool._await(lambda: self._task.delivered, "wait", self._task.tid, timeout)
 
     def get(self, timeout=None):
-        if timeout is not None and not self._task.delivered:
-            self._pool._tick("get_timeout")
+        if timeout is not None and timeout < self.POLL_TIMEOUT:
+            if not self._task.delivered:
+                self._pool._tick("get_timeout")
         else:
             self._pool._await(lambda: self._task.delivered, "get", self._task.tid, timeout)
         if not self._task.delivered:
